@@ -1,4 +1,5 @@
 import St4sd.Model.Ini
+import St4sd.Model.IniNames
 /-!
 Witnesses for C19 (hand-written copies of the table rows as they are in the unrepaired code, so that
 this file checks whatever the state of /repo):
@@ -46,5 +47,23 @@ theorem empty_list_shows_default :
       = some [(hookOn, .words [])] ∧
     resolve dflt [(hookOn, .words [])] hookOn = .words [] ∧
     resolve dflt (compress [(hookOn, .words [])]) hookOn = .words ["ResourceExhausted".toList] := by decide
+
+/-! Name decoders that agree with the coded ones on the names of ordinary packages (one hyphen, one digit)
+but not on the whole name class of `Props.C19.section_name_roundtrip` / `stage_section_roundtrip`. -/
+section Names
+open St4sd.IniNames St4sd.Str
+
+/-- `split('-')[1]` equals `[4:]` for `ENV-MPI` but truncates an environment whose own name has a hyphen -/
+theorem split_at_hyphen_truncates :
+    envNameBySplit (envSection "mpi".toList) = envName (envSection "mpi".toList) ∧
+    envNameBySplit (envSection "hpc-python".toList) = some "HPC".toList ∧
+    envName (envSection "hpc-python".toList) = some "HPC-PYTHON".toList := by decide
+
+/-- reading one digit of the stage index is right up to `STAGE9` and wrong from `STAGE10` on -/
+theorem one_digit_stage_index_breaks_at_ten :
+    stageIndexOneDigit (stageSection 9) = some 9 ∧ stageIndexOneDigit (stageSection 10) = some 1 ∧
+    stageIndex (stageSection 10) = some 10 := by decide
+
+end Names
 
 end St4sd.C19.Witness
